@@ -100,6 +100,7 @@ func runP2P(outPath string, scale int, inPath string) {
 		emit(rec)
 		// let the previous exchange (ping streams, identify) finish, then take the baseline
 		var m0, m1 runtime.MemStats
+		stuckBefore := inHandlers() // handlers already stuck because of an earlier message are not charged to this one
 		runtime.ReadMemStats(&m0)
 		ctx, cancel := context.WithTimeout(context.Background(), 2*time.Second)
 		if err := pair.a.SendRaw(ctx, pair.b.ID(), resp, d); err != nil {
@@ -111,11 +112,11 @@ func runP2P(outPath string, scale int, inPath string) {
 		// anything they call) are counted in a dump of all goroutine stacks
 		t0 := time.Now()
 		stuck := inHandlers()
-		for stuck > 0 && time.Since(t0) < settleDeadline {
+		for stuck > stuckBefore && time.Since(t0) < settleDeadline {
 			time.Sleep(5 * time.Millisecond)
 			stuck = inHandlers()
 		}
-		g0, g1 := 0, stuck
+		g0, g1 := stuckBefore, stuck
 		runtime.ReadMemStats(&m1)
 		rec.GLeak, rec.SettleMs, rec.Alloc = g1-g0, int(time.Since(t0)/time.Millisecond), m1.TotalAlloc-m0.TotalAlloc
 		if rec.GLeak < 0 {
@@ -210,15 +211,17 @@ func splitLines(b []byte) [][]byte {
 }
 
 // inHandlers counts the goroutines whose stack is inside the stream handlers of the MessageProtocol.
+var stackBuf = make([]byte, 8<<20) // reused: the dumps must not count as allocation of the message under test
+
 func inHandlers() int {
-	buf := make([]byte, 1<<20)
+	var buf []byte
 	for {
-		n := runtime.Stack(buf, true)
-		if n < len(buf) {
-			buf = buf[:n]
+		n := runtime.Stack(stackBuf, true)
+		if n < len(stackBuf) {
+			buf = stackBuf[:n]
 			break
 		}
-		buf = make([]byte, 2*len(buf))
+		stackBuf = make([]byte, 2*len(stackBuf))
 	}
 	return bytes.Count(buf, []byte("p2p.(*MessageProtocol).onRequest(")) + bytes.Count(buf, []byte("p2p.(*MessageProtocol).onResponse("))
 }
